@@ -271,7 +271,14 @@ def run(ctx: Ctx, tier: str) -> Result:
                 binds_ = t.local_bindings(col, cn)
                 inits_ = [b for k_, b in binds_ if k_ == "assign"]
                 augs_ = [b for k_, b in binds_ if k_ == "aug"]
-                cnt_ok = len(inits_) == 1 and isinstance(inits_[0][1], ast.Constant) and inits_[0][1].value == 0 and not paths.within(p, inits_[0][1], lp) and \
+                if len(binds_) == 1 and len(inits_) == 1 and isinstance(inits_[0][1], ast.Call) and norm(inits_[0][1].func) == "len" and apps \
+                        and norm(inits_[0][1].args[0]) == norm(apps[0].func.value) and paths.within(p, inits_[0][1], lp) and inits_[0][1].lineno < sc_calls[0].lineno:
+                    # the index named first: `frame_index = len(collected_frames)` in the same iteration
+                    res.ok("C02.TYPE", {"frame index": norm(inits_[0][1])})
+                    cnt_ok = None
+                    ia = []
+                else:
+                  cnt_ok = len(inits_) == 1 and isinstance(inits_[0][1], ast.Constant) and inits_[0][1].value == 0 and not paths.within(p, inits_[0][1], lp) and \
                     len(augs_) == 1 and isinstance(augs_[0].op, ast.Add) and isinstance(augs_[0].value, ast.Constant) and augs_[0].value.value == 1 and \
                     paths.block_position(p, augs_[0])[0] is lp and augs_[0].lineno > sc_calls[0].lineno and len(binds_) == 2
         if cnt_ok:
@@ -290,7 +297,7 @@ def run(ctx: Ctx, tier: str) -> Result:
                 res.ok("C02.TYPE", {"frame index": norm(larg)})
             else:
                 res.fail(Finding("C02.TYPE", col.qname, inner, col.loc(inner), "the frame index given to should_collect_vars is not the number of frames collected so far"))
-        else:
+        elif ia:
             res.fail(Finding("C02.TYPE", col.qname, calls[0], col.loc(calls[0]), "which frames carry variables is not decided by should_collect_vars(index)"))
 
     # ---------------- VAR
@@ -378,7 +385,9 @@ def run(ctx: Ctx, tier: str) -> Result:
     lrv = Vars(); lrv.num(LN, 0)
 
     def lref(w):
-        v = w.num[LN]
+        v = w.num[LN] if LN in w.num else w.enum.get(LN)
+        if v is None or not isinstance(v, (int, float)) and not hasattr(v, "below"):
+            return lambda got: True          # not a number: infeasible, the line is always an int (-1 for none)
         neg = (v < 0) if isinstance(v, (int, float)) else getattr(v, "below", False)
         return (lambda got: got[0] == "return" and got[1] in (0, "0")) if neg else (lambda got: got[0] == "return" and got[1] == LN)
     table_rule(res, "C02.SNAP", ltb, lrv, lref, "tracepoint line: the configured line, 0 when it is negative")
@@ -527,4 +536,7 @@ def run(ctx: Ctx, tier: str) -> Result:
     borrow(ctx, res, tier, "c07", ("C07.ENTRY",), "C02.IDS", "every watch result points at an entry of the snapshot's table: what was given an id has its entry kept")
     borrow(ctx, res, tier, "c11", ("C11.SIB",), "C02.TYPE", "the frame_type the tracepoint was given is the one the snapshot action works with (taken over as given by the builder)")
     borrow(ctx, res, tier, "c05", ("C05.DEPTH",), "C02.VAR", "children of containers and objects are collected down to the configured depth (depth counted from 0 at the value collected)")
+    borrow(ctx, res, tier, "c19", ("C19.CHAIN",), "C02.PATH", "the include / exclude / root settings the frames are classified with resolve as documented (an empty list given in code is a value)")
+    borrow(ctx, res, tier, "c03", ("C03.MERGE",), "C02.PLACE", "a tracepoint is installed at its own location: the snapshot it produces describes the frame of that location, not of a "
+           "same-named function in another file")
     return res
